@@ -224,6 +224,25 @@ pub fn cmd_transcript(args: &[String]) {
         }
         emit(&mut out, &mut rep, format!("container_clone i={} len={}", i, l0), im);
     }
+    // a forked child finds in every container what the parent put there (heap, locked, locked read-only): the container a
+    // secret is held in does not decide whether a child process computes with the secret or with zeros
+    #[cfg(feature = "nightly")]
+    {
+        use dryoc::protected::*;
+        let key: [u8; 32] = core::array::from_fn(|i| (i as u8).wrapping_mul(37) | 1);
+        rep.evaluations += 1;
+        let made = catch(|| (HeapByteArray::<32>::from_slice_into_locked(&key).unwrap(), HeapByteArray::<32>::from_slice_into_readonly_locked(&key).unwrap(), HeapBytes::from(&key[..]), HeapBytes::from_slice_into_locked(&key).unwrap()));
+        if let Ok((lk, lro, hb, lb)) = made {
+            let pid = unsafe { libc::fork() };
+            if pid == 0 {
+                let same = lk.as_slice() == key && lro.as_slice() == key && hb.as_slice() == key && lb.as_slice() == key;
+                unsafe { libc::_exit(if same { 0 } else { 24 }) };
+            }
+            let mut st = 0;
+            unsafe { libc::waitpid(pid, &mut st, 0) };
+            if !(libc::WIFEXITED(st) && libc::WEXITSTATUS(st) == 0) { rep.fail("container contents differ in a forked child (heap / locked / locked read-only)", json!({"status": st})); }
+        }
+    }
     // decoding the same document gives the same verdict and the same bytes whatever container receives them
     for n in [0usize, 1, 16, 31, 32, 33, 64] {
         let elems: Vec<u8> = (0..n).map(|i| (i as u8).wrapping_mul(5) | 1).collect();
